@@ -196,5 +196,17 @@ def rules(ctx):
                 sl = fd.slice(seed_locals=d.uses)
                 if "param:2" in sl["atoms"]:
                     ok = True
-        ctx.decide(o, ok, "field store of next_period_transitions derives from parameter 2",
-                   "no store of parameter 2 into next_period_transitions reaches the result")
+        merged = None
+        if ok:
+            from .. import shape as _sh
+            for d in fd.ret_slice()["defs"]:
+                if d.kind == "assign" and d.info.get("wfield") == ("next_period_transitions",) and d.instr is not None and d.instr.ops:
+                    e = _sh.expr(fd, d.instr.ops[0])
+                    if e[0] == "call" and "next_period_transitions" in _sh.fields_of(e):
+                        merged = (d.instr, _sh.show(e)[:100])
+        if merged:
+            ctx.bad(o, "what is stored is %s: the argument is merged with the schedule's old transitions (im's union keeps the entries of the "
+                    "receiver), so the optimised cycles are dropped" % merged[1], loc=merged[0].line())
+        else:
+            ctx.decide(o, ok, "field store of next_period_transitions derives from parameter 2",
+                       "no store of parameter 2 into next_period_transitions reaches the result")
